@@ -116,6 +116,10 @@ def gen_program(r, shape=None):
         delta = TOP - a
         lay = [[(x + delta, l) for x, l in blk] for blk in lay]
     starts = [blk[0][0] for blk in lay]
+    # "degenerate end": a block whose last instruction writes the IP only to the next address and which ends
+    # there only because the next block's start is the constant target of the last block's jump
+    cand = [bi for bi in range(len(lay) - 1) if lay[bi + 1][0][0] == lay[bi][-1][0] + lay[bi][-1][1] and len(lay[bi]) >= 2]
+    degen = r.choice(cand) if cand and (shape == "f08" or r.random() < 0.2) else None
     blocks = []
     for bi, blk in enumerate(lay):
         dense = r.random() < 0.3
@@ -134,7 +138,14 @@ def gen_program(r, shape=None):
             ins.typ = t
             last = k + 1 == len(blk)
             nxt = (addr + ln) % TOP
-            if last and not last_block and not nxt_is_gap:
+            if last and degen == bi:
+                ins.efs.append(jump_effect(r, ins, regs, starts, nxt, real=False))
+            elif last and last_block and degen is not None:
+                ins.ipw = True
+                ins.rout.add(IP)
+                ins.efs.append("rs %s 8 %s" % (IP, c64(starts[degen + 1])))
+                ins.term = True
+            elif last and not last_block and not nxt_is_gap:
                 # the block has to end here: a real jump, or the next block start is somebody's target
                 ins.efs.append(jump_effect(r, ins, regs, starts, nxt, real=True))
                 ins.term = True
